@@ -205,7 +205,7 @@ impl Property for C13 {
     fn cases(&self, tier: Tier) -> usize {
         match tier {
             Tier::Quick => 80_000,
-            Tier::Thorough => 1_500_000,
+            Tier::Thorough => 8_000_000,
         }
     }
     fn strategy(&self, _tier: Tier) -> BoxedStrategy<FamCase> {
